@@ -167,8 +167,27 @@ class Engines(object):
         import yaql as y
         self.ctx = y.create_context()
 
-    def finalize(self, obj, t2l, s2l, conv=False):
-        return self.st[(t2l, s2l, conv)].evaluate(data=obj, context=self.ctx.create_child_context())
+        # other shapes of context a host may evaluate `$` through: a default document (or a host variable `$`) lies behind the
+        # document of the call
+        from yaql.language import contexts
+        D = {'name': 'default', 'items': [1, 2]}
+        std_d = y.create_context(data=D)
+        host = contexts.Context()
+        host['$'] = 'host-$'
+        host['appName'] = 'demo'
+        self.shapes = [
+            ('a MultiContext [child of a standard context made with a default document, host context]',
+             lambda: contexts.MultiContext([std_d.create_child_context(), contexts.Context()])),
+            ('a MultiContext [fresh context, host context with its own $] whose parents hold the standard library',
+             lambda: contexts.MultiContext([self.ctx.create_child_context(), host.create_child_context()])),
+            ('a child of a MultiContext [standard context with a default document, host context with its own $]',
+             lambda: contexts.MultiContext([std_d, host]).create_child_context()),
+            ('a LinkedContext(parent=standard context with a default document, linked=host context with its own $)',
+             lambda: contexts.LinkedContext(std_d.create_child_context(), host)),
+        ]
+
+    def finalize(self, obj, t2l, s2l, conv=False, ctx=None):
+        return self.st[(t2l, s2l, conv)].evaluate(data=obj, context=ctx if ctx is not None else self.ctx.create_child_context())
 
 
 JSONLIKE = {'scalar', 'list', 'dict', 'tuple', 'set', 'generator'}
@@ -236,6 +255,15 @@ def run(rep, tier, seed, keep=False):
                 rep.evaluations += 1
                 if not (got2[0] == 'ok' and same(got2[1], want)):
                     rep.violation('C10/roundtrip', '`$` on host document %s (t2l=%s, s2l=%s): real %r, canonical %r' % (short(t), t2l, s2l, got2, want), case)
+                for shape, mk in eng.shapes:
+                    try:
+                        got3 = ('ok', census(eng.finalize(build(t), t2l, s2l, conv=True, ctx=mk())))
+                    except Exception as e:  # noqa
+                        got3 = ('raises', type(e).__name__)
+                    rep.evaluations += 1
+                    if not (got3[0] == 'ok' and same(got3[1], want)):
+                        rep.violation('C10/roundtrip/other-context-shape', '`$` on host document %s (t2l=%s, s2l=%s) evaluated through %s: real %r, canonical %r' % (
+                            short(t), t2l, s2l, shape, got3, want), case)
             if n % 1501 == 1:
                 rep.sample({'tree': short(t), 't2l': t2l, 's2l': s2l, 'model': 'ok ' + repr(mcensus(out['t'])) if out['ok'] else str(out['why'])})
         rep.traces += n
